@@ -61,6 +61,18 @@ func tryRegister(name string) (t *log.Tag, panicked any) {
 }
 
 func init() {
+	// (0) the documented-valid tags this harness itself registers at start-up
+	parts = append(parts, partDef{prop: "C18", name: "c18/harness-tags", tiers: "qt", run: func(r *runCtx, p *Part) {
+		p.Bounds = "the 13 documented-valid tag names registered by the harness at start-up"
+		p.Executions, p.States, p.Transitions = 13, 13, 13
+		p.addObs("accept")
+		p.addObs("registered")
+		if r.shard == 0 {
+			for _, f := range tagInitFailures {
+				p.fail(Violation{Clause: "valid-rejected", Key: f, Detail: f}, f)
+			}
+		}
+	}})
 	// (1) the predicate on every string of length <= 7 (thorough 8) over the 10-symbol alphabet
 	parts = append(parts, partDef{prop: "C18", name: "c18/predicate-all-strings", tiers: "qt", run: func(r *runCtx, p *Part) {
 		n := 7
